@@ -271,8 +271,14 @@ func (s *SoftwrapScanner) Scan() bool {
 			}
 			s.rest = []vaxis.Cell{}
 			// Append characters to token until we reach the end
+			full := false
 			for _, char := range word {
-				if w >= s.width {
+				// The line takes graphemes while they fit, and
+				// always at least one
+				if len(s.token) > 0 && w+uint16(char.Width) > s.width {
+					full = true
+				}
+				if full {
 					// Append the rest to rest
 					s.rest = append(s.rest, char)
 					continue
